@@ -120,12 +120,15 @@ class Fold:
             kk = self.ev(x[2][0])[1]
             vals = sorted(self.ev(e)[1] for e in x[2][1:])
             return C(vals[kk], x[3])
-        if m == 'fmax':
+        if m in ('fmax', 'fmin'):
+            # f32::max / f32::min: a NaN operand is ignored (the other operand is returned)
+            import math
             a, b = self.ev(x[2][0]), self.ev(x[2][1])
-            return C(max(a[1], b[1]), 'f32')
-        if m == 'fmin':
-            a, b = self.ev(x[2][0]), self.ev(x[2][1])
-            return C(min(a[1], b[1]), 'f32')
+            if math.isnan(a[1]):
+                return C(b[1], 'f32')
+            if math.isnan(b[1]):
+                return C(a[1], 'f32')
+            return C(max(a[1], b[1]) if m == 'fmax' else min(a[1], b[1]), 'f32')
         if m in ('fceil', 'ffloor', 'fround', 'ftrunc', 'fabs'):
             import math
             a = self.ev(x[2][0])[1]
@@ -697,6 +700,25 @@ def cell_table_cmp(pdb, node, atom_name, ty, env=None):
 # -------------------------------------------------------------------------------------------------
 # bound prover for panic-site obligations over unconstrained (or bit-constrained) words
 
+def lb_node(x, depth=0):
+    """a lower bound of an unsigned scalar node that needs no reasoning about wrap-around (0 when nothing is known)"""
+    if depth > 50:
+        return 0
+    k = x[0]
+    if k == 'c' and isinstance(x[1], int):
+        return max(x[1], 0)
+    ty = ty_of(x)
+    if ty not in INT_BITS or is_signed(ty):
+        return 0
+    if k == 'ite':
+        return min(lb_node(x[2], depth + 1), lb_node(x[3], depth + 1))
+    if k == 'bin' and x[1] == 'BitOr':
+        return max(lb_node(x[2], depth + 1), lb_node(x[3], depth + 1))
+    if k == 'cast' and ty_of(x[1]) in INT_BITS and not is_signed(ty_of(x[1])) and INT_BITS[ty] >= INT_BITS[ty_of(x[1])]:
+        return lb_node(x[1], depth + 1)
+    return 0
+
+
 def ub_node(bv, x, depth=0):
     """an upper bound of an unsigned scalar node, from known-zero bits and the shape of the arithmetic (None = unknown)"""
     if depth > 400:
@@ -716,8 +738,10 @@ def ub_node(bv, x, depth=0):
         if a is not None and b is not None:
             return min(tmax, a + b if x[1] == 'Add' else a * b)
     if k == 'bin' and x[1] == 'Sub':
+        # a - b <= a only when the subtraction cannot wrap: b a constant not above a lower bound of a that the shape
+        # gives for free (a = c + ..., a = t | c); anything else may wrap to the top of the type
         a = ub_node(bv, x[2], depth + 1)
-        if a is not None:
+        if a is not None and x[3][0] == 'c' and isinstance(x[3][1], int) and lb_node(x[2]) >= x[3][1] >= 0:
             return a
     if k == 'cast':
         if ty_of(x[1]) == 'bool':
